@@ -40,7 +40,7 @@ Proof.
   induction ws as [|w ws IH]; intros s u; cbn [release_ws]; [reflexivity|].
   destruct (t_pc (tasks s w)); try reflexivity.
   - apply (prog_set_pc (set_lock s (Some w) ws) w (PW3 k f) u).
-  - rewrite IH. rewrite prog_finish_close. reflexivity.
+  - rewrite IH. rewrite prog_finish_close, tasks_shutdown_tr. reflexivity.
 Qed.
 
 Lemma prog_drain tb ts u : t_prog (drain tb ts u) = t_prog (ts u).
@@ -83,7 +83,8 @@ Ltac progtac Hw :=
   cbn [tasks set_pump set_dq set_pump_done];
   repeat first [ rewrite prog_finish_w | rewrite prog_finish | rewrite prog_set_pc | rewrite prog_finish_close
                | rewrite prog_enter_close | rewrite prog_feed | rewrite prog_push | rewrite prog_wake ];
-  cbn [tasks set_task set_tasks set_table set_rtable set_buffering set_failing set_flags set_queue set_lock set_wire set_shut set_closed set_pump set_dq set_pump_done];
+  cbn [tasks set_task set_tasks set_table set_rtable set_buffering set_failing set_stalled set_flags set_queue set_lock set_wire set_shut set_closed set_pump set_dq set_pump_done];
+  rewrite ?tasks_shutdown_tr;
   rewrite ?upd_other by exact Hw; try reflexivity.
 
 Theorem step_other_prog s t s' w :
@@ -102,7 +103,8 @@ Proof.
   - destruct (wr s); inversion H; subst; progtac Hw.
   - discriminate.
   - inversion H; subst; progtac Hw.
-  - destruct (failing s || shut s); inversion H; subst.
+  - destruct (stalled s && negb (shut s)); [discriminate|].
+    destruct (failing s || shut s); inversion H; subst.
     + rewrite prog_set_pc. unfold release. rewrite prog_release_ws. reflexivity.
     + rewrite prog_finish_w. unfold release. rewrite prog_release_ws. reflexivity.
   - inversion H; subst; progtac Hw.
@@ -138,7 +140,7 @@ Proof.
              | context [match ?x with _ => _ end] => destruct x eqn:?
              end; inversion H; subst s'; unfold mu;
       try (rewrite (pcof_of_pcu _ _ _ _ (pcu_finish _ t _)), prog_finish; cbn [pcw callw];
-           try (cbn [tasks set_task set_tasks set_buffering set_failing set_flags]; rewrite ?upd_same; cbn [t_prog with_verdict with_rq with_prog]);
+           try (cbn [tasks set_task set_tasks set_buffering set_failing set_stalled set_flags]; rewrite ?upd_same; cbn [t_prog with_verdict with_rq with_prog]);
            rewrite ?P0; lia).
     + rewrite (pcof_of_pcu _ _ _ _ (pcu_set_task s0 t _)). cbn. rewrite upd_same. cbn. lia.
     + rewrite (pcof_of_pcu _ _ _ _ (pcu_set_task s0 t _)). cbn. rewrite upd_same. cbn. lia.
@@ -171,6 +173,7 @@ Proof.
   - discriminate.
   - inversion H; subst; unfold mu. rewrite (pcof_of_pcu _ _ _ _ (pcu_set_pc _ t _)), prog_set_pc. cbn. lia.
   - assert (wr s = Some t) as Ewr by (apply (inv_holder s HI); unfold pcof; rewrite Epc; reflexivity).
+    destruct (stalled s && negb (shut s)); [discriminate|].
     destruct (failing s || shut s); inversion H; subst; unfold mu.
     + rewrite (pcof_of_pcu _ _ _ _ (pcu_set_pc _ t _)), prog_set_pc. unfold release. rewrite prog_release_ws. cbn. lia.
     + rewrite (pcof_of_pcu _ _ _ _ (pcu_finish_w _ t k _)), prog_finish_w. unfold release. rewrite prog_release_ws. cbn. lia.
@@ -181,7 +184,7 @@ Proof.
     rewrite prog_drain, prog_wake. cbn. lia.
   - destruct (wr s); inversion H; subst; unfold mu.
     + rewrite (pcof_of_pcu _ _ _ _ (pcu_set_pc _ t _)), prog_set_pc. cbn. lia.
-    + rewrite pcof_finish_close_same, prog_finish_close. cbn. lia.
+    + rewrite pcof_finish_close_same, prog_finish_close, tasks_shutdown_tr. cbn. lia.
   - discriminate.
   - inversion H; subst; unfold mu. rewrite (pcof_of_pcu _ _ _ _ (pcu_set_task _ t _)). cbn. rewrite upd_same. cbn. lia.
   - inversion H; subst; unfold mu. rewrite (pcof_of_pcu _ _ _ _ (pcu_set_task _ t _)). cbn. rewrite upd_same. cbn. lia.
